@@ -2,7 +2,7 @@ import sys, os, time
 sys.path.insert(0, os.path.dirname(os.path.dirname(os.path.abspath(__file__))))
 import z3
 from lirsym import llvm
-from lirsym.core import Solver, Stats, Inconclusive, bv
+from lirsym.core import Solver, Stats, Inconclusive, bv, simp
 from vlib import cir, runner, build
 
 TYPES = {'i128': (2, True), 'u128': (2, False), 'i256': (4, True), 'u256': (4, False)}
@@ -698,21 +698,36 @@ def ob_pow_loop(cx, T, timeout_ms):
     ex, solver = mk_exec(cx, timeout_ms)
     ex.overrides['@ferret_is_zero_limbs'] = _is_zero_contract(nl)
 
+    byreg = nl == 2     # 128-bit types travel in registers: (i64 lo, i64 hi) per operand, { i64, i64 } as the result
+
+    def cmul(x, y):
+        # x*y with the operands in one canonical order: bit-blasting cannot show a*b = b*a at this width in reasonable time
+        x, y = simp(x), simp(y)
+        if x.get_id() > y.get_id():
+            x, y = y, x
+        return x * y
+
     def mul_contract(ex_, st_, a_, work_):
+        if byreg:
+            return cmul(z3.Concat(a_[1], a_[0]), z3.Concat(a_[3], a_[2]))
         x = st_.mem.load(st_, a_[1], 8 * nl)
         y = st_.mem.load(st_, a_[2], 8 * nl)
-        st_.mem.store(st_, a_[0], x * y, 8 * nl)
+        st_.mem.store(st_, a_[0], cmul(x, y), 8 * nl)
         return None
     ex.overrides['@ferret_%s_mul' % T] = mul_contract
     st = ex.new_state()
     B = [z3.BitVec('b%d' % i, 64) for i in range(nl)]
     X = [z3.BitVec('e%d' % i, 64) for i in range(nl)]
-    rb, rx = put(st, 'base', B), put(st, 'exp', X)
-    ro = st.mem.alloc(8 * nl, name='out', kind='heap')
     base, exp = val(B), val(X)
     ex.stop_at = (fname, header)
     pre = (exp >= 0) if signed else z3.BoolVal(True)
-    outs = ex.run(fname, [st.mem.ptr(ro), st.mem.ptr(rb), st.mem.ptr(rx)], pre=pre, st=st)
+    if byreg:
+        rb = rx = ro = None
+        outs = ex.run(fname, [B[0], B[1], X[0], X[1]], pre=pre, st=st)
+    else:
+        rb, rx = put(st, 'base', B), put(st, 'exp', X)
+        ro = st.mem.alloc(8 * nl, name='out', kind='heap')
+        outs = ex.run(fname, [st.mem.ptr(ro), st.mem.ptr(rb), st.mem.ptr(rx)], pre=pre, st=st)
     cx.funcs |= ex.encoded
     paths = len(outs)
     stopped = [o for o in outs if o.kind == 'stopped']
@@ -723,18 +738,26 @@ def ob_pow_loop(cx, T, timeout_ms):
     o0 = stopped[0]
     fr = o0.state.frames[-1]
 
-    def find(term, cands):
+    def find(term, cands, last=False):
+        hit = None
         for r in cands:
             if r.size == 8 * nl:
                 v = o0.mem.load(o0.state, o0.mem.ptr(r), 8 * nl)
                 rr, _ = solver.check(list(o0.pc) + [v != term])
                 if rr == 'unsat':
-                    return r
-        return None
-    ecopy = find(exp, fr.allocas)
-    rres = find(bv(1, N), [o0.mem.regions[ro.id]] + list(fr.allocas))
-    if ecopy is None or rres is None:
-        return 'violation', {'what': 'INIT: at the loop header no local holds the exponent / no object holds the result 1'}, paths
+                    hit = r
+                    if not last:
+                        return r
+        return hit
+    # the exponent COPY is the last local equal to exp (the spilled parameter precedes it in the frame)
+    ecopy = find(exp, fr.allocas, last=True)
+    if byreg:
+        rb = find(base, fr.allocas)
+        rres = find(bv(1, N), list(fr.allocas))
+    else:
+        rres = find(bv(1, N), [o0.mem.regions[ro.id]] + list(fr.allocas))
+    if ecopy is None or rres is None or rb is None:
+        return 'violation', {'what': 'INIT: at the loop header no local holds the exponent / the base / the result 1'}, paths
     for o in stopped:
         res0 = o.mem.load(o.state, o.mem.ptr(o.mem.regions[rres.id]), 8 * nl)
         b0 = o.mem.load(o.state, o.mem.ptr(o.mem.regions[rb.id]), 8 * nl)
@@ -781,7 +804,7 @@ def ob_pow_loop(cx, T, timeout_ms):
         b1 = o.mem.load(o.state, o.mem.ptr(o.mem.regions[rb.id]), 8 * nl)
         e1 = o.mem.load(o.state, o.mem.ptr(o.mem.regions[ecopy.id]), 8 * nl)
         odd = z3.Extract(0, 0, es) == 1
-        bad = z3.Or(r1 != z3.If(odd, res * bs, res), b1 != bs * bs, e1 != z3.LShR(es, 1))
+        bad = z3.Or(r1 != z3.If(odd, cmul(res, bs), res), b1 != cmul(bs, bs), e1 != z3.LShR(es, 1))
         r, m = solver.check(list(o.pc) + [bad])
         if r == 'unknown':
             return 'unknown', None, paths
@@ -799,7 +822,9 @@ def ob_pow_loop(cx, T, timeout_ms):
     for o in outs2:
         if o.kind != 'ret':
             return 'violation', {'what': 'EXIT: with e = 0 pow does not return (%s)' % o.kind}, paths
-        r1 = o.mem.load(o.state, o.mem.ptr(o.mem.regions[ro.id]), 8 * nl)
+        r1 = o.ret if byreg else o.mem.load(o.state, o.mem.ptr(o.mem.regions[ro.id]), 8 * nl)
+        if r1 is None:
+            return 'violation', {'what': 'EXIT: pow returns no value'}, paths
         r, m = solver.check(list(o.pc) + [r1 != res])
         if r == 'unknown':
             return 'unknown', None, paths
@@ -950,7 +975,7 @@ def main():
     for T in TYPES:
         for op in ('div', 'mod'):
             jobs.append(('divwrap', T, op, tmo))
-    for T in ('u256', 'i256'):
+    for T in TYPES:
         jobs.append(('powloop', T, tmo))
     digs = {'quick': {'u128': [1, 4], 'i128': [3], 'u256': [2], 'i256': [3]},
             'thorough': {'u128': [1, 3, 5], 'i128': [3, 5], 'u256': [2, 5], 'i256': [3, 5]}}[tier_]   # 8 digits: solver unknown at the cap
